@@ -89,6 +89,20 @@ theorem bec2_read_write_shipped
   bec2_read_write P256.env Props.C16.aes_plugin_instance.1 P256C.p256_eccLaws Props.C16.aes_plugin_instance.2
     f ext ephs ephs' out chk hsk hne hopen hnd hok h
 
+/-- **`Bec2File.read_file ∘ write_file = id` for the shipped configuration, text envelope included**: comments, session
+key, auth blocks and plain components come back unchanged -/
+theorem bec2_readFile_writeFile_shipped (cs : List (Text.Str × Text.Str)) (hcs : Text.CommentsWF cs)
+    (f : File) (ext : List Encryptor) (ephs ephs' : List Nat) (out : Bytes) (chk : Bool)
+    (hsk : f.key.length = 16) (hne : f.blocks ≠ []) (hopen : ∀ b ∈ f.blocks, Opens ext b)
+    (hnd : (f.blocks.map AuthBlock.tag).Nodup) (hpl : ∀ c ∈ f.comps, Props.C01.PlainWF c)
+    (h : Bec2.toBinary P256.env f ext ephs = .ok (out, ephs')) :
+    Entry.readBec2 P256.env ext chk (Text.writeText cs out) = .ok (cs, f) := by
+  unfold Entry.readBec2
+  rw [Text.parseText_writeText cs out hcs]
+  simp only [bind, Except.bind]
+  rw [bec2_read_write_plain P256.env Props.C16.aes_plugin_instance.1 P256C.p256_eccLaws Props.C16.aes_plugin_instance.2
+    f ext ephs ephs' out chk hsk hne hopen hnd hpl h]
+
 /-- non-vacuity: a decryptor list that opens a customer-key, an ECC (selector 2) and an update block -/
 example : ∀ b ∈ [AuthBlock.initCust, .initEcc 2, .update [1,2,3,4,5,6,7,8] 255],
     Opens [.csc [1,2,3,4,5,6,7,8], .eccPriv 2 5, .custKey (List.replicate 16 7) [] 0] b := by
